@@ -305,7 +305,12 @@ func c04vectorised(name string, N, nSets, nBlocks, T int, padCells, padSteps int
 	// padding in exactly one dimension: the larger array itself is handed to Run ("exactly the needed size or larger")
 	w.m.Run(runIn, states, runOut)
 	vsym.Reach("after-run")
-	// inputs and parameters are untouched
+	// inputs and parameters are untouched: their shape descriptors ...
+	vsym.Assert(runIn.Len(0) == nBlocks && runIn.Len(1) == nI && runIn.Len(2) == T, "input-array-shape-unmodified")
+	vsym.Assert(inputs.Len(0) == nBlocks && inputs.Len(1) == nI && inputs.Len(2) == T, "input-array-shape-unmodified")
+	vsym.Assert(params.Len(0) == w.rows && params.Len(1) == nSets, "parameter-array-shape-unmodified")
+	vsym.Assert(states.Len(0) == N && states.Len(1) == nS, "state-array-shape-unmodified")
+	// ... and their values
 	for b := 0; b < nBlocks; b++ {
 		for i := 0; i < nI; i++ {
 			for t := 0; t < T; t++ {
